@@ -12,6 +12,8 @@ use xml_schema_generator::{Options, SortBy};
 #[derive(Clone, Debug)]
 enum Input {
     File(String, Vec<u8>),
+    /// the content arrives through a pipe: the program is given the path /dev/stdin
+    Pipe(String, Vec<u8>),
     Missing,
     Directory,
 }
@@ -36,7 +38,13 @@ fn more_valid_inputs() -> Vec<Input> {
 /// the complete 1-edit neighbourhood of one small valid document (valid and invalid files alike)
 fn edited_inputs() -> Vec<Input> {
     use crate::bytespace::{Edits, InputSpace};
-    let e = Edits::new(vec![b"<a x=\"1\"><b/>t</a>\n".to_vec()], false);
+    let e = Edits::new(
+        vec![
+            b"<a x=\"1\"><b/>t</a>\n".to_vec(),
+            "<дом атр=\"зн\">текст текст<эл/>ещё</дом>\n".as_bytes().to_vec(),
+        ],
+        false,
+    );
     (0..e.len()).map(|i| Input::File(format!("edit-{}", i), e.get(i))).collect()
 }
 
@@ -56,6 +64,8 @@ fn inputs() -> Vec<Input> {
         Input::File(s("non-utf8-name"), b"<a><\xff/></a>".to_vec()),
         Input::File(s("non-utf8-attribute-value"), b"<a title=\"Stra\xdfe\"><b/></a>".to_vec()),
         Input::File(s("non-utf8-comment"), b"<a><!-- \xe9 --><b/></a>".to_vec()),
+        Input::Pipe(s("valid-through-pipe"), b"<r z=\"1\"><b n=\"1\"/><b/>t</r>\n".to_vec()),
+        Input::Pipe(s("malformed-through-pipe"), b"<r><b></r>".to_vec()),
         Input::Missing,
         Input::Directory,
     ]
@@ -64,14 +74,14 @@ fn inputs() -> Vec<Input> {
 const PARSERS: &[Option<&str>] = &[None, Some("quick-xml-de"), Some("serde-xml-rs")];
 const DERIVES: &[Option<&str>] = &[None, Some("Debug"), Some(""), Some("Clone, Debug"), Some("Debug,Clone"), Some(" Debug , Clone,")];
 const SORTS: &[Option<&str>] = &[None, Some("unsorted"), Some("name")];
-const OUTPUTS: &[&str] = &["stdout", "new-file", "existing-file", "missing-directory", "is-directory", "existing-file-same-length"];
+const OUTPUTS: &[&str] = &["stdout", "new-file", "existing-file", "missing-directory", "is-directory", "existing-file-same-length", "file-named-dash"];
 const HEADER: &str = "use serde::{Deserialize, Serialize};\n\n";
 /// longer than any rendering of the inputs, so that a missing truncation shows
 const OLD_CONTENT: &[u8] = &[b'/'; 6000];
 
 fn name_of(i: &Input) -> String {
     match i {
-        Input::File(n, _) => n.clone(),
+        Input::File(n, _) | Input::Pipe(n, _) => n.clone(),
         Input::Missing => "missing-path".into(),
         Input::Directory => "input-is-a-directory".into(),
     }
@@ -80,7 +90,7 @@ fn name_of(i: &Input) -> String {
 /// what the library renders for this input and these flags (None = the input is at fault)
 fn expected_text(input: &Input, parser: Option<&str>, derive: Option<&str>, sort: Option<&str>) -> Option<String> {
     let bytes = match input {
-        Input::File(_, b) => b,
+        Input::File(_, b) | Input::Pipe(_, b) => b,
         _ => return None,
     };
     let text = String::from_utf8(bytes.clone()).ok()?;
@@ -94,7 +104,8 @@ fn expected_text(input: &Input, parser: Option<&str>, derive: Option<&str>, sort
         Some("name") => SortBy::XmlName,
         _ => SortBy::Unsorted,
     };
-    Some(format!("{}{}", HEADER, el.to_serde_struct(&o)))
+    let rendered = subject::guarded(|| el.to_serde_struct(&o)).ok()?;
+    Some(format!("{}{}", HEADER, rendered))
 }
 
 fn binary(ctx: &Ctx) -> PathBuf {
@@ -137,7 +148,7 @@ fn run_case(ctx: &Ctx, bin: &Path, all: &[Input], idx: u64, work: &Path) -> Vec<
                 ctx.machinery_error(format!("cannot write input: {}", e));
             }
         }
-        Input::Missing => {}
+        Input::Pipe(..) | Input::Missing => {}
         Input::Directory => {
             let _ = std::fs::create_dir_all(&in_path);
         }
@@ -153,7 +164,15 @@ fn run_case(ctx: &Ctx, bin: &Path, all: &[Input], idx: u64, work: &Path) -> Vec<
     if let Some(s) = SORTS[c.sort] {
         cmd.args(["--sort", s]);
     }
-    cmd.arg(&in_path);
+    match input {
+        Input::Pipe(..) => {
+            cmd.arg("/dev/stdin");
+            cmd.stdin(std::process::Stdio::piped());
+        }
+        _ => {
+            cmd.arg(&in_path);
+        }
+    }
     let out_path: Option<PathBuf> = match OUTPUTS[c.output] {
         "stdout" => None,
         "new-file" => Some(dir.join("out.rs")),
@@ -164,6 +183,7 @@ fn run_case(ctx: &Ctx, bin: &Path, all: &[Input], idx: u64, work: &Path) -> Vec<
             let _ = Command::new("touch").args(["-d", "2001-01-01 00:00:00"]).arg(&p).status();
             Some(p)
         }
+        "file-named-dash" => Some(PathBuf::from("-")),
         "existing-file-same-length" => {
             // an existing file of exactly the length of the expected output, with other content
             let p = dir.join("out.rs");
@@ -183,7 +203,16 @@ fn run_case(ctx: &Ctx, bin: &Path, all: &[Input], idx: u64, work: &Path) -> Vec<
         cmd.arg(p);
     }
     let mtime_before = out_path.as_ref().and_then(|p| std::fs::metadata(p).ok()).and_then(|m| m.modified().ok());
-    let output = match cmd.output() {
+    cmd.stdout(std::process::Stdio::piped()).stderr(std::process::Stdio::piped());
+    let output = match cmd.spawn().and_then(|mut child| {
+        if let Input::Pipe(_, bytes) = input {
+            use std::io::Write;
+            if let Some(mut si) = child.stdin.take() {
+                let _ = si.write_all(bytes);
+            }
+        }
+        child.wait_with_output()
+    }) {
         Ok(o) => o,
         Err(e) => {
             ctx.machinery_error(format!("cannot run {}: {}", bin.display(), e));
@@ -206,7 +235,7 @@ fn run_case(ctx: &Ctx, bin: &Path, all: &[Input], idx: u64, work: &Path) -> Vec<
     };
     let code = output.status.code();
     let stdout = output.stdout.clone();
-    let creatable = matches!(OUTPUTS[c.output], "stdout" | "new-file" | "existing-file" | "existing-file-same-length");
+    let creatable = matches!(OUTPUTS[c.output], "stdout" | "new-file" | "existing-file" | "existing-file-same-length" | "file-named-dash");
     match (&want, creatable) {
         (Some(text), true) => {
             if code != Some(0) {
@@ -223,6 +252,7 @@ fn run_case(ctx: &Ctx, bin: &Path, all: &[Input], idx: u64, work: &Path) -> Vec<
                     if !stdout.is_empty() {
                         bad("stdout-not-empty", format!("stdout should stay empty when an output file is named, got {:?}", String::from_utf8_lossy(&stdout)));
                     }
+                    let p = &dir.join(p);
                     match std::fs::read(p) {
                         Ok(b) if b == text.as_bytes() => {}
                         Ok(b) => bad("file-content", format!("output file holds {:?} but should hold {:?}", String::from_utf8_lossy(&b), text)),
@@ -244,8 +274,8 @@ fn run_case(ctx: &Ctx, bin: &Path, all: &[Input], idx: u64, work: &Path) -> Vec<
             }
             if want.is_none() {
                 match OUTPUTS[c.output] {
-                    "new-file" | "missing-directory" => {
-                        if out_path.as_ref().map(|p| p.exists()).unwrap_or(false) {
+                    "new-file" | "missing-directory" | "file-named-dash" => {
+                        if out_path.as_ref().map(|p| dir.join(p).exists()).unwrap_or(false) {
                             bad("output-created", "the output file was created although the input was at fault".into());
                         }
                     }
